@@ -152,12 +152,191 @@ fn initiate_case(rv: u32, same: bool, cut: usize) -> Result<Value, String> {
 	Ok(v)
 }
 
+/// Raw connected pair on loopback: (dialling end, listening end).
+fn pair(l: &TcpListener) -> Result<(TcpStream, TcpStream), String> {
+	let addr = l.local_addr().map_err(|e| e.to_string())?;
+	let a = TcpStream::connect(addr).map_err(|e| e.to_string())?;
+	let (b, _) = l.accept().map_err(|e| e.to_string())?;
+	Ok((a, b))
+}
+
+fn closed_or(r: &Result<grin_p2p::PeerInfo, Error>) -> Value {
+	match r {
+		Ok(_) | Err(Error::GenesisMismatch { .. }) | Err(Error::PeerWithSelf) => classify(r),
+		// the other end went away / the Hand could not be written
+		Err(_) => json!({"res": "closed", "version": 0}),
+	}
+}
+
+/// One scripted behaviour of MC_HandshakeRing on ONE real `Handshake` object: every connection of
+/// the script is performed for real (the other end being a raw peer, or the object itself for a
+/// self-dial) and its outcome compared with the one Handshake.tla computed.
+fn ring_case(c: &Value, out: &mut NdWriter) -> Result<(usize, usize), String> {
+	let hs = Arc::new(Handshake::new(genesis(true), P2PConfig::default()));
+	let conns = c["conns"].as_array().ok_or("ring case without conns")?;
+	let cap = c["cap"].as_u64().unwrap_or(100) as usize;
+	let raw_l = TcpListener::bind("127.0.0.1:0").map_err(|e| e.to_string())?;
+	let self_l = TcpListener::bind("127.0.0.1:0").map_err(|e| e.to_string())?;
+	let self_addr = PeerAddr(self_l.local_addr().map_err(|e| e.to_string())?);
+	let (mut outbound, mut reported) = (0usize, 0usize);
+	let mut ring_before = 0usize;
+	for ev in conns {
+		let kind = ev["kind"].as_str().unwrap_or("");
+		let k = ev["k"].as_u64().unwrap_or(0);
+		// observed (resA, resI); Null = decided by the raw peer, not by the code under test
+		let (obs_a, obs_i): (Value, Value) = match kind {
+			"lost" => {
+				let (mut a, b) = pair(&raw_l)?;
+				// the Hand cannot be written: `initiate` fails after next_nonce()
+				a.shutdown(std::net::Shutdown::Write).map_err(|e| e.to_string())?;
+				let r = catch_unwind(AssertUnwindSafe(|| {
+					hs.initiate(Capabilities::UNKNOWN, Difficulty::min_dma(), self_addr, &mut a)
+				}));
+				drop(b);
+				outbound += 1;
+				match r {
+					Ok(r) => (Value::Null, closed_or(&r)),
+					Err(_) => (Value::Null, json!({"res": "panic", "version": 0})),
+				}
+			}
+			"raw" => {
+				let (mut a, mut b) = pair(&raw_l)?;
+				let peer = thread::spawn(move || -> Result<(), String> {
+					let _ = b.set_read_timeout(Some(Duration::from_secs(10)));
+					let hand: Hand = read_message(&mut b, ProtocolVersion::local(), Type::Hand).map_err(|e| format!("{:?}", e))?;
+					let shake = Shake {
+						version: ProtocolVersion::local(),
+						capabilities: Capabilities::UNKNOWN,
+						genesis: hand.genesis,
+						total_difficulty: Difficulty::min_dma(),
+						user_agent: "raw".to_string(),
+					};
+					b.write_all(&msg_bytes(Type::Shake, shake, 1000)).map_err(|e| e.to_string())
+				});
+				let r = catch_unwind(AssertUnwindSafe(|| {
+					hs.initiate(Capabilities::UNKNOWN, Difficulty::min_dma(), self_addr, &mut a)
+				}));
+				peer.join().map_err(|_| "raw peer panicked".to_string())??;
+				outbound += 1;
+				match r {
+					Ok(r) => (Value::Null, closed_or(&r)),
+					Err(_) => (Value::Null, json!({"res": "panic", "version": 0})),
+				}
+			}
+			"in" => {
+				let (mut a, mut b) = pair(&raw_l)?;
+				let nonce = 0x5eed_0000_0000_0000u64 + k;
+				let rcv = PeerAddr(raw_l.local_addr().map_err(|e| e.to_string())?);
+				let peer = thread::spawn(move || -> Result<bool, String> {
+					let hand = Hand {
+						version: ProtocolVersion::local(),
+						capabilities: Capabilities::UNKNOWN,
+						nonce,
+						genesis: genesis(true),
+						total_difficulty: Difficulty::min_dma(),
+						sender_addr: PeerAddr("127.0.0.1:5001".parse().unwrap()),
+						receiver_addr: rcv,
+						user_agent: "raw".to_string(),
+					};
+					a.write_all(&msg_bytes(Type::Hand, hand, 1000)).map_err(|e| e.to_string())?;
+					let _ = a.set_read_timeout(Some(Duration::from_secs(10)));
+					Ok(read_message::<Shake, _>(&mut a, ProtocolVersion::local(), Type::Shake).is_ok())
+				});
+				let r = catch_unwind(AssertUnwindSafe(|| {
+					hs.accept(Capabilities::UNKNOWN, Difficulty::min_dma(), &mut b)
+				}));
+				drop(b);
+				let shaken = peer.join().map_err(|_| "raw peer panicked".to_string())??;
+				match r {
+					Ok(r) => {
+						let mut v = classify(&r);
+						if v["res"] == json!("ok") && !shaken {
+							v["res"] = json!("ok_without_shake");
+						}
+						(v, Value::Null)
+					}
+					Err(_) => (json!({"res": "panic", "version": 0}), Value::Null),
+				}
+			}
+			"self" => {
+				// the node dials an address that is its own listener: `accept` runs on the same object
+				let hs2 = hs.clone();
+				let l2 = self_l.try_clone().map_err(|e| e.to_string())?;
+				let acc = thread::spawn(move || -> Result<Value, String> {
+					let (mut b, _) = l2.accept().map_err(|e| e.to_string())?;
+					let r = catch_unwind(AssertUnwindSafe(|| {
+						hs2.accept(Capabilities::UNKNOWN, Difficulty::min_dma(), &mut b)
+					}));
+					Ok(match r {
+						Ok(r) => classify(&r),
+						Err(_) => json!({"res": "panic", "version": 0}),
+					})
+				});
+				let mut a = TcpStream::connect(self_addr.0).map_err(|e| e.to_string())?;
+				let r = catch_unwind(AssertUnwindSafe(|| {
+					hs.initiate(Capabilities::UNKNOWN, Difficulty::min_dma(), self_addr, &mut a)
+				}));
+				let oa = acc.join().map_err(|_| "accept thread panicked".to_string())??;
+				outbound += 1;
+				match r {
+					Ok(r) => (oa, closed_or(&r)),
+					Err(_) => (oa, json!({"res": "panic", "version": 0})),
+				}
+			}
+			other => return Err(format!("unknown script entry {}", other)),
+		};
+		// compare with the model: result class and negotiated version of the side(s) under test
+		let mut bad: Option<(&str, String)> = None;
+		for (side, obs, exp) in [("accept", &obs_a, &ev["resA"]), ("initiate", &obs_i, &ev["resI"])] {
+			if obs.is_null() || bad.is_some() {
+				continue;
+			}
+			let (eres, ores) = (exp["res"].as_str().unwrap_or("?"), obs["res"].as_str().unwrap_or("?"));
+			if eres != "ok" && ores == "ok" {
+				bad = Some(("accepted", format!("{} returned Ok (version {}), the model demands {}", side, obs["version"], eres)));
+			} else if eres == "ok" && ores != "ok" {
+				bad = Some(("refused", format!("{} returned {}, the model demands ok v{}", side, ores, exp["version"])));
+			} else if eres == "ok" && obs["version"] != exp["version"] {
+				bad = Some(("version", format!("{} negotiated {} expected {}", side, obs["version"], exp["version"])));
+			} else if eres != ores && !(eres == "closed" && side == "initiate") {
+				bad = Some(("reason", format!("{} refused with {}, the model says {}", side, ores, eres)));
+			}
+		}
+		if let Some((what, detail)) = bad {
+			if reported < 3 {
+				out.put(&json!({
+					"case": c, "what": what, "kind": kind, "k": k,
+					"when": if ring_before + 1 >= cap { "ring_full" } else { "ring_filling" },
+					"outbound": outbound,
+					"detail": format!("connection #{} ({}), outbound initiation #{} of this Handshake: {}", k, kind, outbound, detail),
+					"observed": {"resA": obs_a, "resI": obs_i},
+				}));
+			}
+			reported += 1;
+		}
+		ring_before = ev["ring_len"].as_u64().unwrap_or(0) as usize;
+	}
+	Ok((conns.len(), outbound))
+}
+
 pub fn run(args: &Args) -> i32 {
 	let cases = read_ndjson(args.req("cases"));
 	let mut out = NdWriter::create(args.req("out"));
 	let local = ProtocolVersion::local().value() as u64;
 	let (mut executed, mut skipped) = (0, 0);
+	let (mut ring_conns, mut ring_outbound) = (0usize, 0usize);
 	for (i, c) in cases.iter().enumerate() {
+		if c["role"] == json!("ring") {
+			match ring_case(c, &mut out) {
+				Ok((n, o)) => {
+					ring_conns += n;
+					ring_outbound = ring_outbound.max(o);
+					executed += 1;
+				}
+				Err(e) => out.put(&json!({"case": {"role": "ring"}, "what": "io", "kind": "ring", "when": "", "detail": e})),
+			}
+			continue;
+		}
 		// the local version of the code under test is the constant PROTOCOL_VERSION
 		if c["lv"].as_u64().unwrap() != local {
 			skipped += 1;
@@ -216,6 +395,10 @@ pub fn run(args: &Args) -> i32 {
 	}
 	let n = out.n;
 	out.finish();
-	println!("{}", json!({"executed": executed, "not_realisable": skipped, "mismatches": n}));
+	println!(
+		"{}",
+		json!({"executed": executed, "not_realisable": skipped, "mismatches": n,
+			"ring_connections": ring_conns, "ring_max_outbound_on_one_object": ring_outbound})
+	);
 	0
 }
